@@ -4,6 +4,9 @@ from pyvc.api import fresh_int
 from pyvc.stubhelpers import param_names
 
 
+IMPLICIT = []  # stack of blocks under implicit construction (xdsl.builder stub)
+
+
 class Attribute:
     pass
 
@@ -119,6 +122,8 @@ class Operation:
         self.properties = {}
         self.regions = []
         self.parent = None
+        if len(IMPLICIT) > 0:
+            IMPLICIT[-1].add_op(self)
 
     @property
     def result(self):
